@@ -227,7 +227,8 @@ class EqualityRec(Contract):
     def instances(self, tier):
         return [dict(label=k, case=k) for k in
                 ("identical", "class-mismatch", "miss-then-hit",
-                 "same-left-other-right", "ne")]
+                 "same-left-other-right", "ne", "function-definition",
+                 "dict-of-named-arrays")]
 
     def run(self, h, inst):
         from pytato.array import Placeholder, Roll
@@ -249,6 +250,52 @@ class EqualityRec(Contract):
             return verdict
         h.interp.contracts[EqualityComparer.map_roll] = map_roll_stub
         cmp_ = EqualityComparer()
+        if case in ("function-definition", "dict-of-named-arrays"):
+            # the two non-Array kinds rec() dispatches on: independently
+            # built, equal-by-construction objects reach their map_ method
+            # (once per pair) and rec returns its verdict
+            from constantdict import constantdict
+
+            import pytato as pt
+            from pytato.function import FunctionDefinition, ReturnType
+
+            def mk():
+                x = pt.make_placeholder("x", (3,), "float64")
+                if case == "dict-of-named-arrays":
+                    return pt.make_dict_of_named_arrays({"o": x + 1})
+                return FunctionDefinition(
+                    parameters=frozenset({"x"}),
+                    return_type=ReturnType.ARRAY,
+                    returns=constantdict({"_": x + 1}), tags=frozenset())
+            f1, f2 = mk(), mk()
+            target = (EqualityComparer.map_function_definition
+                      if case == "function-definition"
+                      else EqualityComparer.map_dict_of_named_arrays)
+            fcalls = []
+
+            def stub(interp, fn, args, kwargs):
+                fcalls.append(args[1:])
+                return verdict
+            h.interp.contracts[target] = stub
+            try:
+                r1 = h.call(cmp_.rec, f1, f2)
+                r2 = h.call(cmp_.rec, f1, f2)
+                r3 = h.call(type(f1).__eq__, f1, f2)
+            except EngineSignal:
+                raise
+            except Exception as e:  # noqa: BLE001
+                h.fail("rec.no-exception", f"{case}: {type(e).__name__}: {e}")
+                return
+            h.oblige("rec.method-called-once-per-pair",
+                     z3.BoolVal(len(fcalls) == 2 and all(
+                         c[0] is f1 and c[1] is f2 for c in fcalls)),
+                     info=f"{len(fcalls)} calls (two comparers)")
+            h.oblige("rec.returns-method-result",
+                     z3.And(_zb(r1) == verdict.t, _zb(r2) == verdict.t,
+                            _zb(r3) == verdict.t))
+            r4 = h.call(cmp_.rec, f1, a)
+            h.oblige("rec.class-mismatch-false", z3.BoolVal(r4 is False))
+            return
         if case == "identical":
             r = h.call(cmp_.rec, a, a)
             h.oblige("rec.reflexive-on-identity", z3.BoolVal(r is True))
@@ -288,6 +335,40 @@ class EqualityRec(Contract):
             r = h.call(Array_ne(), a, b)
             r0 = h.call(Array_eq(), a, b)
             h.oblige("ne.is-negation-of-eq", _zb(r) == z3.Not(_zb(r0)))
+
+    def replay(self, inst, clause, model, info):
+        if inst["case"] in ("function-definition", "dict-of-named-arrays"):
+            return REC_REPLAY.format(case=inst["case"])
+        return None
+
+
+REC_REPLAY = '''
+import sys
+sys.path.insert(0, "/verif")
+import pytato as pt
+from constantdict import constantdict
+from pytato.function import FunctionDefinition, ReturnType
+from pyvc.replaylib import reproduced, not_reproduced
+case = {case!r}
+def mk():
+    x = pt.make_placeholder("x", (3,), "float64")
+    if case == "dict-of-named-arrays":
+        return pt.make_dict_of_named_arrays({{"o": x + 1}})
+    return FunctionDefinition(parameters=frozenset({{"x"}}),
+                              return_type=ReturnType.ARRAY,
+                              returns=constantdict({{"_": x + 1}}),
+                              tags=frozenset())
+f1, f2 = mk(), mk()
+try:
+    r = (f1 == f2)
+except Exception as e:
+    reproduced(f"comparing two independently built, equal {{type(f1).__name__}} "
+               f"objects raises {{type(e).__name__}}: {{e}}")
+if r is not True:
+    reproduced(f"two independently built, equal {{type(f1).__name__}} objects "
+               f"compare {{r!r}}")
+not_reproduced("the independently built objects compare equal")
+'''
 
 
 def Array_ne():
